@@ -113,6 +113,10 @@ def run_pairs(ctx: core.Ctx, pairs: list[tuple[str, str]], stream: str, which: s
                                     {"op": op, "a": sa, "b": sb, "v": m["ptexts"][i]})
                         break
                     if (vr[i] == "1") != want:
+                        if nonseparated(a) or nonseparated(b):
+                            ctx.violate(KNOWN_NONSEP, f"({sa}).{op}({sb}) = {io[1]} is wrong at {m['ptexts'][i]}; an operand is a VersionUnion whose members overlap: {a} / {b}",
+                                        {"op": op, "a": sa, "b": sb, "v": m["ptexts"][i]})
+                            break
                         if local_min_finding(a, b, r, probes[i]):
                             ctx.violate("local-min-intersect", f"({sa}).{op}({sb}) = {io[1]} admits {m['ptexts'][i]} (known class: Version ∩ range whose lower bound is a local build of it)",
                                         {"op": op, "a": sa, "b": sb, "v": m["ptexts"][i]})
@@ -140,17 +144,18 @@ def run_pairs(ctx: core.Ctx, pairs: list[tuple[str, str]], stream: str, which: s
                     continue
                 px = V.bits(x, probes)
                 py = V.bits(y, probes)
+                nonsep = nonseparated(x) or nonseparated(y)
                 for i in regular:
                     if aa == "1" and py[i] == "1" and px[i] == "0":
-                        ctx.violate(f"allows_all-wrong:{sx}|{sy}", f"({sx}).allows_all({sy}) is True but {m['ptexts'][i]} is admitted by the second only", {**wit, "v": m["ptexts"][i]})
+                        ctx.violate(KNOWN_NONSEP if nonsep else f"allows_all-wrong:{sx}|{sy}", f"({sx}).allows_all({sy}) is True but {m['ptexts'][i]} is admitted by the second only", {**wit, "v": m["ptexts"][i]})
                         break
                     if an == "0" and py[i] == "1" and px[i] == "1":
-                        ctx.violate(f"allows_any-wrong:{sx}|{sy}", f"({sx}).allows_any({sy}) is False but both admit {m['ptexts'][i]}", {**wit, "v": m["ptexts"][i]})
+                        ctx.violate(KNOWN_NONSEP if nonsep else f"allows_any-wrong:{sx}|{sy}", f"({sx}).allows_any({sy}) is False but both admit {m['ptexts'][i]}", {**wit, "v": m["ptexts"][i]})
                         break
                 if x is a and y is b:
                     inter = results.get("intersect")
                     if inter is not None and not isinstance(inter, Exception) and (an == "1") != (not inter.is_empty()):
-                        ctx.violate(f"any-vs-intersect:{sx}|{sy}", f"({sx}).allows_any({sy}) = {an} but intersection = {inter}", wit)
+                        ctx.violate(KNOWN_NONSEP if nonsep else f"any-vs-intersect:{sx}|{sy}", f"({sx}).allows_any({sy}) = {an} but intersection = {inter}", wit)
                 else:
                     if aa != "1":
                         ctx.violate(f"self-allows_all:{sx}", f"({sx}).allows_all(itself) is False", wit)
@@ -168,6 +173,26 @@ def run_pairs(ctx: core.Ctx, pairs: list[tuple[str, str]], stream: str, which: s
                 if not obj.is_empty():
                     check_roundtrip(ctx, obj, s, {"op": "parse", "a": s, "b": s})
     ctx.stream(stream, len(pairs), dis)
+
+
+KNOWN_NONSEP = "union-of-leaves-overlapping-members"
+
+
+def nonseparated(c: Any) -> bool:
+    """Known finding: `VersionUnion.of` compares each sorted member only with the LAST merged one; when a Version member sits in
+    the PEP 440 gap of an earlier range's exclusive lower bound (`>1.0.0 || 1.0.0.post1`), it is not merged into that range, and a later
+    member that the earlier range contains is then kept as well: the union's members overlap, and the merge walks (which assume
+    sorted, disjoint members) give wrong answers.  Recognised on the operand itself: two members r1 before r2 with r1.max > r2.min."""
+    from poetry.core.constraints.version import VersionUnion
+    if not isinstance(c, VersionUnion):
+        return False
+    rs = list(c.ranges)
+    for i in range(len(rs)):
+        for j in range(i + 1, len(rs)):
+            mx, mn = rs[i].max, rs[j].min
+            if mn is None or mx is None or mx > mn:
+                return True
+    return False
 
 
 def local_min_finding(a: Any, b: Any, result: Any, p: Any) -> bool:
